@@ -42,24 +42,30 @@ RULE = ("cases come from one PRNG seeded by VERIF_SEED plus fixed catalogues: Ba
         "not empty; distinct = distinct (operation, input) pairs")
 CLAUSES = {
     "Base58 decoding inverts encoding for every payload (leading zeros)":
-        "proved (base58_decode_encode, base58_encode_decode, base58check_roundtrip)",
+        "proved (base58_decode_encode, base58_encode_decode, base58_encode_domain, base58check_roundtrip)",
     "Base58Check accepted exactly when the 4-byte checksum matches":
-        "proved relative to hash256 (base58check_accept_iff, base58check_sound)",
+        "proved relative to hash256 (base58check_accept_iff, base58check_checksum)",
     "Bech32/Bech32m decode inverts encode, versions 0-16, lengths 2-40, every network":
         "proved (bech32_roundtrip, group32_value)",
     "version 0 uses the Bech32 constant, versions 1+ Bech32m (both sides)":
-        "proved (bech32_encode_constant, bech32_decode_constant)",
+        "proved (bech32_constants, bech32_encode_constant, bech32_decode_constant)",
+    "generator, character sets, checksum constants and version bytes are those of BIP173 / BIP350 / Base58Check":
+        "proved (spec_constants; re-extracted from the source on every run)",
     "WIF round trip": "proved relative to hash256 (wif_roundtrip)",
     "scriptPubKey <-> address bijection per template and network":
-        "proved relative to hash256 (address_roundtrip_*, toAddress_roundtrip_*; first-character dispatch: base58_first_char_*)",
+        "proved relative to hash256 (address_roundtrip_p2pkh, address_roundtrip_p2sh, address_roundtrip_p2wpkh, "
+        "address_roundtrip_p2wsh, address_roundtrip_p2tr, segwit_template; first-character dispatch: base58_first_char_dispatch)",
     "one substituted character of the data part is rejected (every length)":
-        "proved (polymod_affine, polymod_single_substitution, decodeBech32_single_substitution)",
+        "proved (polymod_affine, polymod_step_injective, polymod_single_substitution, bech32_single_substitution; when the "
+        "substituted character is the version character AND the substitution switches the checksum constant the proof "
+        "covers at most 89 following characters, i.e. every address of <= 90 characters)",
     "two substituted characters are rejected (length <= 90, checksum constant unchanged)":
-        "proved (polymod_double_substitution, decodeBech32_double_substitution; 31x89 kernel table)",
-    "two substitutions one of which switches the checksum constant (version character 0 <-> non-0)":
-        "correspondence-only (ext; single substitution of the version character is proved for length <= 90)",
-    "TxOut.to_address inverts address() on regtest (F09a)": "partial(F09a): proved for the repaired prefix list, "
-        "witness for the list in today's source",
+        "proved (polymod_double_substitution, bech32_double_substitution; 31x89 kernel table orbit_table)",
+    "two substitutions one of which switches the checksum constant (version character q <-> non-q)":
+        "correspondence-only (ext; sampled double substitutions include the version position)",
+    "TxOut.to_address inverts address() (F09a)": "partial(F09a): proved for the repaired prefix list on every network "
+        "(address_roundtrip_*), for today's list on every network but regtest (toAddress_roundtrip_partial); "
+        "F09a_witness for regtest",
 }
 TRUSTED = ["hash256 is a parameter of every theorem; the driver instantiates it with Buidl.Model.Hash.SHA256 "
            "(checked against hashlib by harness/hash_selftest.py)",
@@ -78,6 +84,15 @@ SECP_N = 0xFFFFFFFFFFFFFFFFFFFFFFFFFFFFFFFEBAAEDCE6AF48A03BBFD25E8CD0364141
 
 class UnknownOp(Exception):
     pass
+
+
+def safe(fn, *a, **kw):
+    """call the implementation while *generating* cases; a failure here is reported by the predicates, the
+    generator just goes without the dependent cases"""
+    try:
+        return fn(*a, **kw)
+    except Exception:
+        return None
 
 
 def rbytes(rng, n):
@@ -346,8 +361,9 @@ def f09a_witness():
     import buidl.script as SC
     import buidl.tx as TX
     h = bytes(range(20))
-    addr = SC.P2WPKHScriptPubKey(h).address("regtest")
-    ok_a2s = SC.address_to_script_pubkey(addr).commands == [0, h]
+    addr = safe(lambda: SC.P2WPKHScriptPubKey(h).address("regtest"))
+    spk = safe(SC.address_to_script_pubkey, addr)
+    ok_a2s = spk is not None and spk.commands == [0, h]
     try:
         TX.TxOut.to_address(addr, 1)
         refused = False
@@ -390,12 +406,13 @@ def run(ctx):
         if b:
             preds.append(("b58_roundtrip", {"b": xb(b)}))
         preds.append(("b58check_roundtrip", {"b": xb(b)}))
-        s = H.encode_base58_checksum(b)
-        encs.append(s)
-        lines.append(("b58_raw_dec", f"b58_raw_dec {xs(s)}"))
-        lines.append(("b58_dec", f"b58_dec {xs(s)}"))
-        if b:
-            raw = H.encode_base58(b)       # usually no valid checksum: exercises the refusal
+        s = safe(H.encode_base58_checksum, b)
+        if isinstance(s, str):
+            encs.append(s)
+            lines.append(("b58_raw_dec", f"b58_raw_dec {xs(s)}"))
+            lines.append(("b58_dec", f"b58_dec {xs(s)}"))
+        raw = safe(H.encode_base58, b) if b else None       # usually no valid checksum: exercises the refusal
+        if isinstance(raw, str):
             lines.append(("b58_raw_dec", f"b58_raw_dec {xs(raw)}"))
             preds.append(("b58check_iff", {"s": raw}))
     # altered Base58Check strings: accepted exactly when the checksum matches
@@ -448,10 +465,17 @@ def run(ctx):
                 preds.append(("bech32_roundtrip", {"v": v, "prog": xb(prog), "net": net}))
                 if (v + ln) % 3 == 0:
                     preds.append(("bech32_wrong_constant", {"v": v, "prog": xb(prog), "net": net}))
-                a = B32.encode_bech32_checksum(wp, net)
+                a = safe(B32.encode_bech32_checksum, wp, net)
+                if not isinstance(a, str):
+                    continue
                 lines.append(("b32_dec", f"b32_dec {xs(a)}"))
                 if v <= 1 and ln in (20, 32) and not (v == 1 and ln == 20):
                     addrs.append((a, HRP[net]))
+                    for _ in range(ctx.n(2, 30)):      # more addresses of the three standard shapes
+                        p2 = rbytes(rng, ln)
+                        a2 = safe(B32.encode_bech32_checksum, bytes([vb, ln]) + p2, net)
+                        if isinstance(a2, str):
+                            addrs.append((a2, HRP[net]))
     # outside the statement, for the model only: versions 17..31 (O09b), odd lengths, length byte larger than the
     # data, unknown network, short programs, OP_RESERVED (0x50) as version byte
     for _ in range(ctx.n(400)):
@@ -498,13 +522,13 @@ def run(ctx):
         for comp in (True, False):
             for vb in (0x80, 0xEF):
                 raw = bytes([vb]) + k.to_bytes(32, "big") + (b"\x01" if comp else b"")
-                wifs.append(H.encode_base58_checksum(raw))
+                wifs.append(safe(H.encode_base58_checksum, raw))
     # well-formed Base58Check, wrong as WIF: other version byte, flag byte 2, 34 bytes with flag 0, short, secret 0 / N
     for raw in (bytes([0x81]) + bytes(31) + b"\x01", bytes([0x80]) + bytes(31) + b"\x05\x02", bytes([0x80]) + bytes(31) + b"\x05\x00",
                 bytes([0x80]), b"", bytes([0xEF]) + b"\x07", bytes([0x80]) + bytes(32), bytes([0x80]) + SECP_N.to_bytes(32, "big") + b"\x01",
                 bytes([0x80]) + b"\x01" * 40, bytes([0x80]) + b"\x00" * 31 + b"\x09" + b"\x01\x01"):
-        wifs.append(H.encode_base58_checksum(raw))
-    for w in wifs:
+        wifs.append(safe(H.encode_base58_checksum, raw))
+    for w in [w for w in wifs if isinstance(w, str) and w]:
         lines.append(("wif_parse", f"wif_parse {xs(w)}"))
         t = list(w)
         t[rng.randrange(len(t))] = rng.choice(B58)
@@ -526,9 +550,10 @@ def run(ctx):
                 lines.append(("addr", f"addr {kind} {xb(h)} {xs(net)}"))
                 if net == "nonet" and kind >= 2:
                     continue
-                a = mk_spk(kind, h).address(net)
-                lines.append(("a2s", f"a2s {xs(a)}"))
-                lines.append(("to_addr", f"to_addr {xs(a)}"))
+                a = safe(lambda: mk_spk(kind, h).address(net))
+                if isinstance(a, str):
+                    lines.append(("a2s", f"a2s {xs(a)}"))
+                    lines.append(("to_addr", f"to_addr {xs(a)}"))
                 if net in NETS:
                     preds.append(("a2s_roundtrip", {"kind": kind, "h": xb(h), "net": net}))
                     preds.append(("to_address_roundtrip", {"kind": kind, "h": xb(h), "net": net}))
